@@ -10,6 +10,7 @@ import Ogen.SecurityHandler_proof
 import Ogen.ValidateModel_proof
 import Ogen.OptNilStates_proof
 import Ogen.HandlerStages_proof
+import Ogen.Exchange_proof
 
 /-! Line-protocol driver over all executable models: `<model> <payload>` per line, one
     canonical output line per input line. Core-only (no Mathlib) so it links natively. -/
@@ -49,6 +50,7 @@ def dispatch (line : String) : String :=
     | "vuniq" => ValidateM.vuniqLine payload
     | "optnil" => OptNil.optnilLine payload
     | "stage" => Stages.stageLine payload
+    | "rsel" => Exchange.rselLine payload
     | "jeq" => JEqDrv.runLine payload
     | "enum" => JEqDrv.enumLine payload
     | _ => "bad-model"
